@@ -9,7 +9,7 @@ FULL = {
  'C01': 'Statement/holds: every bit list, every hint configuration, every configuration, every argument: build succeeds; access, rank1, rank0, select1, select0, num_bits/ones/zeros equal the list semantics (None exactly out of range); hints_irrelevant.',
  'C02': 'Statement/holds: every bit list, every index configuration, every configuration, every argument: select1, num_ones, access; select0 after enable_select0; rank1/rank0 after enable_rank.',
  'C07': 'Statement/holds: constructors valid; every mutation history (verdicts, refinement, rejected operations are no-ops); every read (get_bit, get_bits for every (pos,len), get_word64, rank/select, predecessor/successor, num_ones) for every argument and configuration; iteration; canonical equality.',
- 'C08': 'Statement/holds: Good (round trip with exact consumption, size = bytes written, hence back-to-back reads) for every structure codec, every primitive and the Vec/Option wrappers, on all representable values; stream_roundtrip: any number of values written one after another are read back in order, consuming exactly the sum of their size_in_bytes().',
+ 'C08': 'Statement/holds: Good (round trip with exact consumption, size = bytes written, hence back-to-back reads) for every structure codec, every primitive and the Vec/Option wrappers, on all representable values; stream_roundtrip: any number of values written one after another are read back in order, consuming exactly the sum of their size_in_bytes(); stream_partial_read: reading the first m of them leaves the reader at the first byte of value m.',
  'C09': 'Statement/holds: every constructor (Err exactly for bad widths/misfits), every history of push_int/set_int/extend faithful at every point (len, width, get_int for EVERY index, iteration, canonical equality), verdict of every single operation, rejected operations are no-ops.',
  'C10': 'Statement/holds: Err exactly for max_levels outside 1..=64; otherwise no panic (asserts cannot fire), access lossless for every index, len, level count within 1..=min(L,64), positive widths summing to the bit length.',
  'C11': 'Statement/holds: access lossless for every index, len, exactly ceil(bitlen(max)/8) levels of 8 bits (1 for empty/all-zero input).',
